@@ -16,7 +16,7 @@ import random
 
 from . import core, engine_run
 from .catalogue import catalogue, rows_for
-from .edl import build_engine, diff_obs, observe
+from .edl import build_engine, diff_obs, observe, share_components
 from .tlc import MachineryError
 from .xreal import to_float
 
@@ -27,6 +27,8 @@ def replay_case(fl, case, expected, ctx=None, pid="C01", tie_ok=None):
     """process the rows on a real engine; returns list of (k, description) mismatches"""
     E = case["engine"]
     e = build_engine(fl, E, style=case.get("style", 0))
+    if case.get("shared"):
+        share_components(e)
     bad = []
     for k, row in enumerate(case["rows"], start=1):
         exp = expected.get(k)
@@ -71,7 +73,7 @@ def run(ctx: core.Ctx):
     cases = []
     for E in engines:
         rows = rows_for(E, limit=160 if ctx.quick else None, rng=rng)
-        cases.append({"engine": E, "rows": rows})
+        cases.append({"engine": E, "rows": rows, "shared": len(cases) % 2 == 1})
     if not ctx.quick:
         from .gen_engine import random_engines
 
@@ -94,7 +96,7 @@ def run(ctx: core.Ctx):
             ctx.case((ci, k), nontrivial=any(len(f) > 0 for f in ob["fuzzy"]))
         for k, d in bad:
             what = d.split(":")[0].split("[")[0]
-            ctx.violation(f"Engine.process/{case['engine']['name']}/{what}", {"engine": case["engine"], "rows": case["rows"][:k]},
+            ctx.violation(f"Engine.process/{case['engine']['name']}/{what}", {"engine": case["engine"], "rows": case["rows"][:k], "shared": case.get("shared", False)},
                           {kk: expected[k][kk] for kk in ("out", "fuzzy", "deg", "trig")}, d, note=f"{case['engine']['name']} row {k}: {d}", step=k)
         if ci in (0, 13):
             ctx.sample({"engine": case["engine"]["name"], "row": case["rows"][5], "expected": expected.get(6)})
@@ -138,7 +140,7 @@ def replay(v) -> int:
         print("re-run ./check C01 for the verdict on the current tree")
         return 1
     ctx = core.Ctx("C01", "quick", v.get("seed", 0))
-    case = {"engine": v["case"]["engine"], "rows": v["case"]["rows"]}
+    case = {"engine": v["case"]["engine"], "rows": v["case"]["rows"], "shared": v["case"].get("shared", False)}
     exp = engine_run.evaluate(ctx, [case], "replay", shards=1)
     expected = {k: o for (c, k), o in exp.items()}
     from .c09 import tie_tolerant
